@@ -87,6 +87,16 @@ pub fn matrix_configs(thorough: bool) -> Vec<EpCfg> {
                             c[9] |= 0x01;
                             s.push((format!("CONNECT {name} with the reserved flag bit"), c));
                         }
+                        // a first CONNECT whose Protocol Name length field is not 4 (shorter, longer, beyond the end of
+                        // the packet): turned down like by a fixed-version server, never a panic
+                        for (name, vv) in [("v3.1.1", Ver::V4), ("v5.0", Ver::V5)] {
+                            for nl in [0u16, 1, 3, 5, 6, 0x0040, 0x0400, 0xFFFF] {
+                                let mut c = rc::encode(&ConnProf::basic(true).ap(vv), 2);
+                                c[2] = (nl >> 8) as u8;
+                                c[3] = nl as u8;
+                                s.push((format!("CONNECT {name} with Protocol Name length {nl}"), c));
+                            }
+                        }
                         // (every value of the Protocol Level byte, on a v3.1.1-shaped and on a v5.0-shaped CONNECT)
                         for lvl in 0..=255u8 {
                             if lvl == 4 || lvl == 5 {
